@@ -50,6 +50,8 @@ def check(ctx, replay=None):
     # entries of one syscall that are not adjacent (A, B, A): each single-condition entry keeps its relation wherever it stands in the group
     plan.append(dict(scope="merge", mc=None, mc_maxskips=[255], stride=1 if th else 3, concs=2, expand=2))
     plan.append(dict(scope="mergeops", mc=["DecisionOK"], mc_maxskips=[255], stride=1 if th else 2, concs=3 if th else 2, expand=2))
+    # ... and in another group than a conditional entry for the same syscall that tests the other argument (in front of it / behind it)
+    plan.append(dict(scope="guarded", mc=["DecisionOK"], mc_maxskips=[255], kw=dict(W=2, NSys=1), stride=1 if th else 2, concs=3 if th else 2, expand=1))
     if th:
         # W = 3: every operand x every actual value (64 x 64)
         plan.append(dict(scope="single", mc=["DecisionOK"], mc_maxskips=[255], kw=dict(W=3, NSys=1), stride=1, concs=8, expand=1))
